@@ -197,7 +197,8 @@ EXTRA_TEXT = {
            'C07_range_of_text - the body of every valid range export is the text specification of the rows over the stage interval the measure index assigns to a..b.',
     'C08': ' C08Prefix: C08_excerpt_from_start - an excerpt that starts at the beginning of the score is the full export cut after its end stage plus the synthetic terminator. C08Range: C08_preamble_flat / C08_excerpt_flat / C08_excerpt_spec - for a later excerpt (from_measure >= 1) above whose first line no spine path is split, joined, added or ended and below which no signature of a class in force is declared again, the recovered preamble is exactly the header line followed by the signatures in force on every spine path (the entries of last_signature_nodes, by C10_sigs_recurrence the nearest signatures above), the body is the lines of the measures, then the terminator; the executable specification KernModel/Spec/Excerpt.lean is compared with the real export on every explored excerpt in that core (counted as lean_excerpt_spec in the evidence).',
     'C15': ' Document level (C15Doc): C15_same_skeleton, C15_export - the transposed document has the skeleton of the source and its default export is the text specification over the source '
-           'skeleton and the transposed tokens.',
+           'skeleton and the transposed tokens. C15Round: C15_roundtrip - for documents whose single notes are spelled with at most two accidentals, a successful transposition can be '
+           'transposed back by the same interval in the opposite direction and the default export of what comes back is the default export of the source.',
     'C10': ' Document level (C10Doc, C10Text): C10_sigs_recurrence (every node\'s signature table is its parent\'s, updated with itself when it is a signature), C10_clef_in_force, '
            'clef_is_nearest (the clef the exporter uses = the nearest clef token at or above the cell on its spine path) and C10_export_of_text: every export without a measure range in '
            'ALL SIX encodings is a function of the text (tracker skeleton + tokens + clef in force); compared with the real export on every explored option set.',
@@ -211,7 +212,7 @@ EXTRA_TEXT = {
 }
 NOTE_OVERRIDE = {
     'C03': 'Trusted: Lean kernel, standard axioms, extract.py, harness. ANTLR parser = parameter (tokOf tie by correspondence). Open findings: F10 (separator characters in free text), '
-           'F16 (hidden barlines) are outside the hypotheses. Hypothesis of the document theorems: no surplus cells (wf, decidable, reported by the driver for every explored text).',
+           'F16 (hidden barlines), F21 (the extended trill TT is read as two T; found with the full signifier alphabet, oracle written from the statement) are outside the hypotheses. Hypothesis of the document theorems: no surplus cells (wf, decidable, reported by the driver for every explored text).',
     'C10': 'Trusted: Lean kernel, standard axioms, extract.py, harness; decimal formatting of the staff position is not modelled. Hypothesis on the parser\'s tokens (checked on every '
            'explored document): a signature token is neither a barline nor a CORE token.',
     'C02': 'Trusted: Lean kernel, standard axioms, extract.py, harness. Surplus cells are proved rejected when the previous line left live paths; after a line that terminates every '
